@@ -111,6 +111,26 @@ def walk_unique(t, seen):
                     stack.append(y)
 
 
+def boolify(g):
+    """conditional expressions with a constant branch as and/or (same value, same evaluation order)"""
+    if g[0] == 'ite':
+        c, a, b = g[1], boolify(g[2]), boolify(g[3])
+        if a == FALSE:
+            return simp(AND(NOT(c), b))
+        if b == FALSE:
+            return simp(AND(c, a))
+        if a == TRUE:
+            return simp(OR(c, b))
+        if b == TRUE:
+            return simp(OR(NOT(c), a))
+        return g
+    if g[0] == 'not':
+        return simp(NOT(boolify(g[1])))
+    if g[0] == 'bool':
+        return simp((AND if g[1] == 'and' else OR)(*[boolify(x) for x in g[2]]))
+    return g
+
+
 def subst(t, f):
     """Bottom-up rewrite: f(term) -> term or None (keep)."""
     if not isinstance(t, tuple):
@@ -233,7 +253,12 @@ def simp1(t):
             return C(eq if op in ('Eq', 'Is') else not eq)
         if op in ('Eq', 'NotEq', 'Is', 'IsNot') and (a == NONE or b == NONE):
             other = b if a == NONE else a
-            if other[0] in ('tuple', 'list', 'dict', 'obj', 'lpvar', 'lpproblem', 'fstr', 'comp', 'cat', 'lambda', 'dictcomp', 'accum', 'upd', 'sum', 'closure') \
+            if other[0] == 'ite':
+                # (c ? x : y) is None  ->  c ? (x is None) : (y is None)   when a branch is decided
+                x, y = simp(('cmp', op, other[2], NONE)), simp(('cmp', op, other[3], NONE))
+                if x[0] == 'const' or y[0] == 'const':
+                    return simp(('ite', other[1], x, y))
+            if other[0] in ('tuple', 'list', 'dict', 'obj', 'lpvar', 'lpproblem', 'fstr', 'comp', 'cat', 'lambda', 'dictcomp', 'accum', 'upd', 'sum', 'closure', 'slice') \
                     or (other[0] == 'call' and other[1] in (S('lpSum'), S('LpAffineExpression'), S('list'), S('tuple'), S('dict'), S('set'), S('sorted'), S('str'), S('len'), S('range'))) \
                     or (other[0] == 'const' and other[1] is not None) \
                     or (other[0] == 'bin' and other[1] in ('Add', 'Sub', 'Mult')):
